@@ -441,6 +441,37 @@ func genC09(tier string, r *Rng, emit func(Case)) {
 	if tier == "thorough" {
 		n = 400000
 	}
+	// the empty pattern and one-digit patterns on every kind of window, through every entry point
+	for _, ver := range allVers {
+		for _, L := range []int{10, 120} {
+			raw := make([]int, L)
+			for i := range raw {
+				raw[i] = 1 + r.Intn(2)
+			}
+			for _, ws := range []int{-1, 1, 3, 100} {
+				for _, we := range []int{-1, 7, 150} {
+					for fn := 0; fn <= 10; fn++ {
+						for _, pat := range [][]int{{}, {1}} {
+							var t toks
+							t.s("T")
+							t.ints(raw)
+							t.ints(nil)
+							t.i(1)
+							t.i(ws)
+							t.i(we)
+							t.ints(pat)
+							t.i(fn)
+							t.i(r.Pick([]int{-1, 1, 2, 3, 50}))
+							if fn == 5 || fn == 6 {
+								t[len(t)-1] = "3"
+							}
+							emit(Case{Ver: ver, Op: "Find", Args: t})
+						}
+					}
+				}
+			}
+		}
+	}
 	for i := 0; i < n; i++ {
 		ver := allVers[i%3]
 		if t, ok := genFindCase(r, ver, "T"); ok {
